@@ -70,25 +70,32 @@ def preset_all(body, values):
 
 
 def constant_locals(F, body, cls=None):
-    """Locals with a single immutable definition that folds to a number (half, two, three, four; also from earlier such constants and through
-    `Complex::new(c, 0)`), in definition order."""
-    out = {}
+    """Locals whose immutable definition folds to a number (half, two, three, four; also from earlier such constants and through
+    `Complex::new(c, 0)`), in definition order.  A shadowing re-definition (`let four = Complex::new(four, 0)`) is accepted when every
+    definition of the name folds to the same number."""
+    by_id = {}
     binds = all_binds(body)
+    names = {}
     for n in walk(body["body"]):
         if n.get("k") == "LetS" and n["pat"].get("k") == "Bind" and "init" in n and "Mut)" not in n["pat"].get("mode", ""):
             if any(x.get("k") == "Call" and "ovl" in x for x in walk(n["init"])):
                 continue
             try:
                 it = (cls or guards.GInterp)(F, body, lambda c: True)
-                for nm, v in out.items():
-                    for i in binds.get(nm, []):
-                        it.env[i] = v
-                        it.names[i] = nm
+                for i, v in by_id.items():
+                    it.env[i] = v
+                    it.names[i] = names[i]
                 v = it.ev(n["init"])
-                if hasattr(v, "is_number") and v.is_number and len(binds.get(n["pat"]["name"], [])) == 1:
-                    out[n["pat"]["name"]] = v
+                if hasattr(v, "is_number") and v.is_number:
+                    by_id[n["pat"]["id"]] = v
+                    names[n["pat"]["id"]] = n["pat"]["name"]
             except Exception:
                 pass
+    out = {}
+    for nm, ids in binds.items():
+        vs = [by_id.get(i) for i in ids]
+        if vs and all(v is not None for v in vs) and all(v == vs[0] for v in vs):
+            out[nm] = vs[0]
     return out
 
 
